@@ -169,6 +169,12 @@ def asmCheck (req ans : String) : Option String :=
   | _, _ => none      -- answers without a `tr` field (errors, old corpus lines) are not compared
 
 def handle (line : String) : String :=
+  -- diagnostic form: `ASM:<request>\t<answer>` runs the assembly comparison alone
+  if line.startsWith "ASM:" then
+    match ((line.drop 4).toString).splitOn "\t" with
+    | [req, ans] => (match asmCheck req ans with | none => "asm-ok\t-" | some d => "asm-mismatch " ++ d ++ "\t-")
+    | _ => "bad-request\t-"
+  else
   let base := handleBase line
   if base.startsWith "ok" then
     match line.splitOn "\t" with
